@@ -165,6 +165,29 @@ theorem xor_abs (k : KState) (h : k.toV.Inv) (o : List PyKey) :
   rw [ofList_abs, List.map_append, iterObjs_canon _ (sub_abs k h o).1, (sub_abs k h o).2,
     iterObjs_canon _ (ofList_factors _).2, ofList_abs, e, LSpec.extend_nil_nodup _ hnd]
 
+/-- `other - self`: the labels of `other` (first occurrences, in order) not in `self` -/
+theorem rsub_abs (k : KState) (h : k.toV.Inv) (o : List PyKey) :
+    (k.rsub o).toV.Inv ∧
+    (k.rsub o).toV.abs = (LSpec.extend [] ((o.map canon).map some) true).1.filter fun x => !decide (x ∈ k.toV.abs) := by
+  refine ⟨(ofList_factors _).2, ?_⟩
+  unfold KState.rsub
+  have hO := (ofList_factors o).2
+  have e : ((ofList o).iterObjs.filter fun x => !(k.count x)).map canon
+      = (LSpec.extend [] ((o.map canon).map some) true).1.filter fun x => !decide (x ∈ k.toV.abs) := by
+    rw [← ofList_abs, ← iterObjs_canon _ hO]
+    apply filter_canon
+    intro x
+    congr 1
+    rw [Bool.eq_iff_iff, count_iff_mem k h]; simp
+  rw [ofList_abs, e, LSpec.extend_nil_nodup]
+  rw [← ofList_abs]
+  exact (VState.abs_nodup _ hO).sublist List.filter_sublist
+
+/-- `other | self` is `self | other` (`__ror__ = __or__`) -/
+theorem ror_abs (k : KState) (h : k.toV.Inv) (o : List PyKey) :
+    (k.ror o).toV.Inv ∧
+    (k.ror o).toV.abs = (LSpec.extend [] ((k.toV.abs ++ o.map canon).map some) true).1 := or_abs k h o
+
 end KState
 
 /-! ### the range-labelled fast path -/
